@@ -29,7 +29,8 @@ fn convert(line: &str) -> Option<(String, String)> {
     };
     let (c, d) = st.split_once(" deadlines=[")?;
     let c = c.strip_prefix("closest=")?;
-    let d = d.strip_suffix(']')?;
+    // "...] conns=H,E": the connection table is not part of the timer model
+    let d = d.split_once("] conns=").map(|x| x.0).or_else(|| d.strip_suffix(']'))?;
     Some((tok, format!("{}/{}", c, d)))
 }
 
@@ -46,6 +47,8 @@ pub fn run(ctx: &mut Ctx) {
                 quic: Some(QuicSettings::builder().build()),
             })
             .allow_private_network_connections(true)
+            // the QUIC idle timeout of a connection whose handshake never completes is the endpoint's own
+            .client_listener_timeout(Duration::from_millis(1200))
             .build()
             .unwrap();
         Core::new(settings, None, plain_hosts(), Shutdown::new()).unwrap()
@@ -62,7 +65,7 @@ pub fn run(ctx: &mut Ctx) {
         let mut sess = vec![];
         let mut origins = vec![];
         for k in 0..3u64 {
-            let idle = [400u64, 900, 30_000][k as usize];
+            let idle = [400u64, 900, 1100][k as usize];
             if let Ok(mut c) = H3Client::connect_idle(ep.addr, Some("localhost"), &[b"h3"], 1 << 20, Duration::from_secs(3), idle) {
                 if let Some(id) = c.request("CONNECT", None, &target, None, &[], false) {
                     let t0 = Instant::now();
@@ -104,11 +107,35 @@ pub fn run(ctx: &mut Ctx) {
         if let Some(c) = sess.get_mut(2) {
             c.close();
         }
+        // two abandoned handshakes: a client that gets the Retry, sends its second Initial and is never heard of again
+        for _ in 0..2 {
+            abandon_handshake(ep.addr);
+        }
         std::thread::sleep(Duration::from_millis(200));
         drop(sess);
         ctx.stat("quic_timer_rounds");
     }
+    // everybody is gone: once the idle timers of the abandoned handshakes (1.2 s, or three probe timeouts) have run out the
+    // multiplexer must hold no connection and no deadline any more
+    let t0 = Instant::now();
+    loop {
+        std::thread::sleep(Duration::from_millis(200));
+        let last = verif::hooks::STATE.lock().unwrap().quic_timer_ops.last().cloned().unwrap_or_default();
+        if (last.ends_with("conns=0,0") && last.contains("deadlines=[]")) || t0.elapsed() > Duration::from_secs(9) {
+            break;
+        }
+    }
     let log: Vec<String> = verif::hooks::STATE.lock().unwrap().quic_timer_ops.clone();
+    if let Some(last) = log.last() {
+        let conns = last.rsplit_once(" conns=").map(|x| x.1.to_string()).unwrap_or_default();
+        let deadlines_empty = last.contains("deadlines=[]");
+        if conns != "0,0" || !deadlines_empty {
+            ctx.oracle_failure(
+                "connections_not_released",
+                &format!("9 s after the last client had gone (sessions closed or idled out, two handshakes abandoned; idle timeout 1.2 s) the QUIC multiplexer still holds connections (handshaking,established) = {} ; last record: {}", conns, last.chars().take(300).collect::<String>()),
+            );
+        }
+    }
     drop(ep);
     let mut conv = vec![];
     for l in &log {
@@ -160,4 +187,36 @@ pub fn run(ctx: &mut Ctx) {
         let (c, d) = last.split_once('/').unwrap_or(("-", ""));
         init = (c.to_string(), if d.is_empty() { "-".to_string() } else { d.to_string() });
     }
+}
+
+/// the first two flights of a QUIC client (Initial, then the Initial carrying the Retry token) and then silence
+fn abandon_handshake(addr: std::net::SocketAddr) {
+    let sock = std::net::UdpSocket::bind("127.0.0.1:0").unwrap();
+    sock.set_read_timeout(Some(Duration::from_millis(200))).unwrap();
+    let local = sock.local_addr().unwrap();
+    let mut config = quiche::Config::new(quiche::PROTOCOL_VERSION).unwrap();
+    config.verify_peer(false);
+    config.set_application_protos(&[b"h3"]).unwrap();
+    config.set_max_idle_timeout(600);
+    config.set_initial_max_data(1 << 20);
+    config.set_initial_max_stream_data_bidi_local(1 << 20);
+    config.set_initial_max_stream_data_bidi_remote(1 << 20);
+    config.set_initial_max_streams_bidi(10);
+    config.set_initial_max_streams_uni(10);
+    let mut scid = [0u8; 16];
+    for (i, b) in scid.iter_mut().enumerate() {
+        *b = (local.port() as u8).wrapping_mul(31).wrapping_add(i as u8);
+    }
+    let Ok(mut conn) = quiche::connect(Some("localhost"), &quiche::ConnectionId::from_ref(&scid), local, addr, &mut config) else { return };
+    let mut buf = [0u8; 1500];
+    for _ in 0..2 {
+        while let Ok((n, _)) = conn.send(&mut buf) {
+            let _ = sock.send_to(&buf[..n], addr);
+        }
+        let mut rb = [0u8; 2000];
+        if let Ok((n, from)) = sock.recv_from(&mut rb) {
+            let _ = conn.recv(&mut rb[..n], quiche::RecvInfo { from, to: local });
+        }
+    }
+    // the second Initial has gone out in the second iteration's send; nothing more
 }
